@@ -25,7 +25,7 @@ RULE = (
     "{response, error (own / foreign / null id), batch array, notifications+server request+response, result with a foreign id, JSON object that is no JSON-RPC message, empty, truncated, non-JSON, non-UTF-8 (leading / "
     "inside a string), JSON that is no message, body without message} x {int id, string id, id 0, notification} plus mislabelled bodies, "
     "4 transport exceptions x 7 id shapes; SSE encodings: {no event field, 'event: message', 'event:message'} x data space x {LF, CRLF, "
-    "mixed} x 4 comment/id/retry placements x 3 stream endings x multi-line data x 2 contents; every pair over a 29-letter behaviour "
+    "mixed} x 4 comment/id/retry placements x 3 stream endings x multi-line data x 2 contents x {no / typed data-less / typed with data / comment-only} extra events; every word of length<=3 over {untyped message, typed message, typed non-message with data, typed without data, comment-only, blank} events; every pair over a 32-letter behaviour "
     "alphabet (session header present/changed/absent/on error status) (quick) + sampled words of length<=4 (thorough: 30000) + seeded "
     "random contents/encodings; real http_client() with MockTransport vs HttpDecide.run; python SSE renderer vs Sse.renderText; "
     "non-trivial = distinct case with at least one request"
@@ -73,6 +73,10 @@ def _failure_class(case, j):
 def _sse_feature(body):
     """which conformant-encoding feature an SSE body uses (class of a lost-message finding)"""
     evs = [e for e in body["events"] if e.get("msg") is not None]
+    if any(not e["data"] for e in body["events"]):
+        return "sse/with-data-less-event"
+    if any(e.get("msg") is None for e in body["events"]):
+        return "sse/with-non-message-event"
     if any(e.get("name") is None for e in evs):
         return "sse/no-event-field"
     if any(not c["sp"] for e in evs for c in e["dc"]) or any(not e["nc"]["sp"] for e in evs):
@@ -220,9 +224,10 @@ class SseEncodings(_Base):
 
     def kind(self, case, o):
         body = case["reqs"][0]["b"]["body"]
-        e = body["events"][-1]
+        e = [x for x in body["events"] if x.get("msg") is not None][-1]
         name = "noevent" if e["name"] is None else ("event-sp" if e["nc"]["sp"] else "event-nosp")
-        return f"sse/{name}/{'sp' if e['dc'][0]['sp'] else 'nosp'}/{body['tail']}"
+        ka = "keepalive" if any(not x["data"] for x in body["events"]) else "plain"
+        return f"sse/{name}/{'sp' if e['dc'][0]['sp'] else 'nosp'}/{body['tail']}/{ka}"
 
 
 class Sequences(_Base):
@@ -230,7 +235,7 @@ class Sequences(_Base):
 
     def cases(self, ctx, budget):
         out = G.pairs()
-        ctx.exhaustive_parts.append("sequences: every ordered pair over the 29-letter behaviour alphabet")
+        ctx.exhaustive_parts.append("sequences: every ordered pair over the 32-letter behaviour alphabet")
         rng = ctx.sub_rng("c11-seq", budget)
         n = {"quick": 600, "thorough": 30000, "search": 8000}[budget]
         out += G.sampled_sequences(rng, n, maxlen=4)
@@ -257,6 +262,8 @@ class Render(Suite):
     def cases(self, ctx, budget):
         rng = ctx.sub_rng("c11-render", budget)
         out = [c["reqs"][0]["b"]["body"] for c in G.sse_encodings(stride=3)]
+        out += [c["reqs"][0]["b"]["body"] for c in G.singles()
+                if c["reqs"][0]["b"].get("body", {}).get("form") == "sse" and any(not e["data"] for e in c["reqs"][0]["b"]["body"]["events"])]
         for k in range(300 if budget == "quick" else 5000):
             b = G.random_single(rng, k)["reqs"][0]["b"]["body"]
             if b["form"] == "sse":
@@ -266,7 +273,7 @@ class Render(Suite):
     def impl_batch(self, cases):
         obs = []
         for b in cases:
-            evs = [[(e["name"] or "message"), "\n".join(e["data"])] for e in b["events"]]
+            evs = [[(e["name"] or "message"), "\n".join(e["data"])] for e in b["events"] if e["data"]]
             obs.append({"text": G.sse_text(b), "conformant": True, "events": evs})
         return obs
 
